@@ -37,4 +37,48 @@ var specs = map[string]*propSpec{
 		Floor:  map[string]int{"quick": 20000, "thorough": 60000},
 		Phases: mainPhase,
 	},
+	"C02": {
+		ID: "C02",
+		Rule: "case idx -> battle of 1..4 warriors of 'lively hostile' code (SPL/MOV/JMP/DJN heavy, DAT and division by zero seeded, 1/5 uniformly random forms), M 3..48, P 1..8, C 1..300, " +
+			"random (overlapping, wrapping) load offsets and entry points, 1/6 with read/write limits < M. Monitor (a): a Reporter records executed (warrior,pc) pairs; after EVERY cycle these, RunCycle's return value, " +
+			"core, queues, alive flags, living count and CycleCount are compared with the reference scheduler. Monitor (b): a second real simulator driven by one Run() call must end in the same state. " +
+			"non-trivial = battle with a multi-warrior death, a mid-cycle decision leaving later warriors unexecuted, a push dropped at the process limit, the cycle limit reached with several alive, or 3-4 warriors; " +
+			"distinct by (warrior count, event set, M/8, P)",
+		Assumptions: append([]string{
+			"reference scheduler in ref/mars/battle.go; the cycle in which a multi-warrior battle is decided is not counted as completed (the statement is silent on the partial cycle; gmars' convention)"}, commonAssumptions...),
+		Floor:  map[string]int{"quick": 300, "thorough": 1000},
+		Phases: mainPhase,
+	},
+	"C13": {
+		ID: "C13",
+		Rule: "part 1 (walked completely, as a workload): every call sequence up to depth 3 (quick) / 4 (thorough) over the alphabet {AddWarrior(w0|w1|w2), SpawnWarrior(i,off) i in -1..count+1, off in {0,M-1,M,2M+3}, " +
+			"RunCycle, Run, Reset, GetWarrior(i), GetMem(2M+3)} on a core of 5; part 2: random histories of 3..40 calls (M 5..8, P 1..3, C in {1,2,3,5,40}, two extra random warriors) biased toward Reset, respawn and calls after decision; " +
+			"after EVERY call the monitor compares return values/errors/nils, core, queues, NextPC, alive flags, counters and the internal invariants with the reference API state machine; Run() executes under a CPU-time progress monitor; " +
+			"half of the random histories are extended to the relational check (prefix; Reset; respawn; tail) vs (fresh; spawn; tail) compared call by call on two real simulators. " +
+			"non-trivial = history containing a call that cannot apply (bad index, running warrior, stepping/running a decided, empty or never-started battle); distinct by the sequence of call kinds",
+		Assumptions: append([]string{
+			"reference API state machine = ref/mars/battle.go: out-of-range index => error/nil and no change; spawn of a living warrior => error; spawn of an added or dead warrior (re)loads and revives it; RunCycle/Run on a decided, empty or never-started battle change nothing (their return value is then unconstrained, except that a non-nil Run() result must be the alive vector); Reset => empty core, cycle 0, no tasks"}, commonAssumptions...),
+		Floor:  map[string]int{"quick": 2000, "thorough": 20000},
+		Phases: mainPhase,
+	},
+	"C04": {
+		ID: "C04",
+		Rule: "case idx -> configuration (half: every field independently from {0,1,2,3,4,5,7,8,16,100,2^10,2^16,2^20} or uniform in 0..2^20; half: plausible small cores 3..64 with limits =M, <M, >M) -> NewReportingSimulator must return error xor simulator without panicking; " +
+			"every accepted configuration is USED: 1..4 warriors of uniformly random instruction forms (all 7616, boundary-biased fields), spawned at offsets in [0,3M), then stepped cycle by cycle (or driven by Run(), 1/4) " +
+			"with the API-level invariants (fields and queued PCs < M, tasks <= P, CycleCount <= C, living count == #alive, alive <=> has tasks) and the internal-invariant hook evaluated after EVERY cycle. " +
+			"non-trivial = accepted configuration whose battle reported a write/inc/dec outside the executing warrior's own load area; distinct by (limit class, M class, P, warrior count, Run/step, opcode set bucket)",
+		Assumptions: append([]string{
+			"on cores > 4096 cells at most 40 cycles are stepped, the full-core scan and the internal hook run after spawning and at the end; in between only the addresses named by reports of that cycle are scanned"}, commonAssumptions...),
+		Floor:  map[string]int{"quick": 300, "thorough": 1000},
+		Phases: mainPhase,
+	},
+	"C12": {
+		ID: "C12",
+		Rule: "case idx -> battle of 1..3 warriors (generator of C02, half with read/write limits < M), run to completion by Run() at shift 0 and at shifts k (all k for M<=16 in thorough; otherwise 1, M-1, two random and the two shifts that make the first warrior's code / entry point wrap) " +
+			"and, for a third of them, at k+M and k+2M; survivors, CycleCount, queues rotated by k and core rotated by k must be equal (two real simulators, no reference model involved). " +
+			"non-trivial = shifted placement in which code or entry point wraps past M-1, or an offset >= M; distinct by (warrior count, wrap kind, limits or not, M/4, length of warrior 0)",
+		Assumptions: commonAssumptions,
+		Floor:       map[string]int{"quick": 300, "thorough": 1000},
+		Phases:      mainPhase,
+	},
 }
